@@ -236,8 +236,12 @@ def run(chk) -> None:
     user_calls = []
     for c in ast.walk(sr):
         if isinstance(c, ast.Call):
-            txts = [ast.unparse(c.func)] + [ast.unparse(a) for a in c.args]
-            if any(t.split(".")[0] in policy_names and "." in t for t in txts) or ".retry_policy." in ast.unparse(c.func):
+            ftxt = ast.unparse(c.func)
+            atxts = [ast.unparse(a) for a in c.args] + [ast.unparse(k.value) for k in c.keywords]
+            # a method of the policy is called, or the policy object (or one of its attributes) is handed to other code, which
+            # may call it, hash it or inspect it (isinstance/type/id run no user code)
+            handed = any(t.split(".")[0].split("(")[0] in policy_names for t in atxts) and ftxt not in ("isinstance", "type", "id")
+            if (ftxt.split(".")[0] in policy_names and "." in ftxt) or ".retry_policy." in ftxt or handed:
                 user_calls.append(c)
     chk.floor("C04.R4", "calls into the user-supplied retry policy inside the reducer", len(user_calls), 1)
     for c in user_calls:
@@ -296,6 +300,8 @@ _P = CL_REL
 _B = "packages/llama-index-workflows/src/workflows/plugins/basic.py"
 _H = "packages/llama-index-workflows/src/workflows/handler.py"
 TWINS = [
+    Twin("policy inspected outside the guard", _P, "            if retries is not None:\n                try:\n                    _next_params = inspect.signature(retries.next).parameters\n", "            if retries is not None:\n                _next_params = inspect.signature(retries.next).parameters\n                try:\n", "C04.R4"),
+    Twin("policy handed to a helper outside the guard", _P, "            if retries is not None:\n                try:\n", "            if retries is not None:\n                _known = hash(retries)\n                try:\n", "C04.R4"),
     Twin("benign: adapter stream stops through a flag read by the loop", _B, "            while True:\n                item = await self._queues.publish_queue.get()\n                yield item\n                if isinstance(item, StopEvent):\n                    break", "            reached_stop = False\n            while not reached_stop:\n                item = await self._queues.publish_queue.get()\n                yield item\n                reached_stop = isinstance(item, StopEvent)", None),
     Twin("adapter stream flag is computed but the loop ignores it", _B, "            while True:\n                item = await self._queues.publish_queue.get()\n                yield item\n                if isinstance(item, StopEvent):\n                    break", "            reached_stop = False\n            while True:\n                item = await self._queues.publish_queue.get()\n                yield item\n                reached_stop = isinstance(item, StopEvent)", "C04.R2"),
     Twin("benign: stop scan through a predicate", _P, "                        for res in tick_result.result:\n                            if isinstance(res, StepWorkerResult) and isinstance(\n                                res.result, StopEvent\n                            ):\n                                await self.cleanup_tasks()\n                                break\n", "                        if any(isinstance(res, StepWorkerResult) and isinstance(res.result, StopEvent) for res in tick_result.result):\n                            await self.cleanup_tasks()\n", None),
